@@ -124,6 +124,8 @@ Wrap(step, x) ==
     [] step = "Compare.comparators" -> N("ExprCompare", [comparators |-> <<x>>, left |-> S, operators |-> StrsN])
     [] step = "Dict.keys"          -> N("ExprDict", [keys |-> <<x>>, values |-> <<S>>])
     [] step = "Dict.values"        -> N("ExprDict", [keys |-> <<S>>, values |-> <<x>>])
+    \* `{**x}`: a None among the keys marks the unpacked mapping
+    [] step = "Dict.values+unpack" -> N("ExprDict", [keys |-> <<NoneN>>, values |-> <<x>>])
     [] step = "DictComp.key"       -> N("ExprDictComp", [generators |-> <<Cmp(S, <<>>)>>, key |-> x, value |-> S])
     [] step = "DictComp.value"     -> N("ExprDictComp", [generators |-> <<Cmp(S, <<>>)>>, key |-> S, value |-> x])
     [] step = "DictComp.generators/Comprehension.iterable" -> N("ExprDictComp", [generators |-> <<Cmp(x, <<>>)>>, key |-> S, value |-> S])
@@ -162,7 +164,7 @@ Wrap(step, x) ==
 
 AllSteps == {"Attribute.first", "BinOp.left", "BinOp.right", "BoolOp.values", "Call.function", "Call.function+kw",
              "Call.arguments", "Call.arguments/Keyword.value", "Call.arguments/VarPositional.value",
-             "Call.arguments/VarKeyword.value", "Compare.left", "Compare.comparators", "Dict.keys", "Dict.values",
+             "Call.arguments/VarKeyword.value", "Compare.left", "Compare.comparators", "Dict.keys", "Dict.values", "Dict.values+unpack",
              "DictComp.key", "DictComp.value", "DictComp.generators/Comprehension.iterable", "GeneratorExp.element",
              "GeneratorExp.generators/Comprehension.conditions", "IfExp.body", "IfExp.test", "IfExp.orelse",
              "JoinedStr.values/Formatted.value", "JoinedStr.values/Formatted.value+conversion",
